@@ -417,3 +417,9 @@ META = dict(
     explanation='encode then decode executed symbolically from the real source; identity and canonical form are z3 queries per path',
     required_outcomes=['tuple', 'numpy', 'json', 'hand', 'empty hand', 'deal line', 'dealt'],
 )
+
+
+def validate(tier):
+    """translator validation: the interpreter in concrete mode against CPython on the functions this check encodes"""
+    from engine import validate as v
+    return v.run(['converters', 'regex_model'], tier)
